@@ -16,6 +16,9 @@ from .model import PREFIXES, SPELL, TABLE, U
 NO_TWIN_LEAVES = [n for n in model.UNIT_NAMES if n != "Becquerel"]  # Hertz/Becquerel are twins
 QUANTITY_LEAVES = [n for n in NO_TWIN_LEAVES]
 EXPS = [(1, 1), (-1, 1), (2, 1), (-2, 1), (3, 1), (-3, 1), (4, 1), (1, 2), (1, 3), (2, 3), (3, 2), (-1, 2)]
+# trees also use composite root denominators and NON-REDUCED pairs: (2, 4) renders as pow<2>(root<4>(x)), an integer power applied to a fractional exponent that
+# cancels only partially (the model evaluates the exact fraction 2/4 = 1/2)
+TREE_EXPS = EXPS + [(1, 4), (1, 6), (2, 4), (3, 6), (2, 6), (4, 6), (-2, 4), (6, 4)]
 SCALE_NUMS = [2, 3, 5, 7, 10, 12, 60, 100, 127, 254, 1000, 1024, 3600, 5280, 8191, 65537, 1000000, 2147483647]
 
 
@@ -36,7 +39,7 @@ def tree(max_leaves=6, named_ids=(), allow_scale=True, allow_frac=True):
     base = [leaf(), leaf(), prefixed()]
     if named_ids:
         base.append(st.builds(lambda i: {"k": "named", "id": i}, st.sampled_from(list(named_ids))))
-    exps = EXPS if allow_frac else [e for e in EXPS if e[1] == 1]
+    exps = TREE_EXPS if allow_frac else [e for e in EXPS if e[1] == 1]
 
     def extend(children):
         opts = [
